@@ -1,7 +1,7 @@
 ----------------------------- MODULE Trace_Priors -----------------------------
 (* C08, binding B: every event is a pair of real calls prior.sample(u1), prior.sample(u2)  *)
 (* on a prior built from exactly representable arguments (dyadic rationals, u = j/UD).     *)
-(*   e = [id, kind, a, b, j1, j2, UD, S, m1, m2, tol]     a, b = [n, d];  m = round(sample*S) *)
+(*   e = [id, kind, a, b, j1, j2, UD, S, m1, m2, tol, gtol, bad]  a, b = [n, d];  m = round(sample*S) *)
 (* TLC re-evaluates the specification on the logged arguments:                              *)
 (*   uniform kinds : the sample is lo + u (hi - lo)   (scaled comparison, tol units)        *)
 (*   gaussian kinds: the sample lies in the bracket given by the monotone table Z, is       *)
@@ -16,8 +16,10 @@ Rq(x) == R(x[1], x[2])
 \* grid cell of u = j/UD on the Z grid: floor and ceiling of u * UN
 CellLo(j, UD) == (j * UN) \div UD
 CellHi(j, UD) == ((j * UN) + UD - 1) \div UD
-GaussLo(p, j, UD) == IF CellLo(j, UD) < 1 THEN <<-Big + 1, 1>> ELSE Sample(p, CellLo(j, UD))
-GaussHi(p, j, UD) == IF CellHi(j, UD) > UN - 1 THEN <<Big - 1, 1>> ELSE Sample(p, CellHi(j, UD))
+\* bracket of the gaussian sample by the table values at the two neighbouring grid points (open at the ends)
+InBracket(m, S, p, j, UD, tol) ==
+    /\ CellLo(j, UD) >= 1      => m * Sample(p, CellLo(j, UD))[2] >= Sample(p, CellLo(j, UD))[1] * S - tol * Sample(p, CellLo(j, UD))[2]
+    /\ CellHi(j, UD) <= UN - 1 => m * Sample(p, CellHi(j, UD))[2] <= Sample(p, CellHi(j, UD))[1] * S + tol * Sample(p, CellHi(j, UD))[2]
 \* m = round(x*S) is >= r - tol/S   /   <= r + tol/S     (one extra unit for the rounding of the table)
 GeS(m, S, r, tol) == m * r[2] >= r[1] * S - tol * r[2]
 LeS(m, S, r, tol) == m * r[2] <= r[1] * S + tol * r[2]
@@ -25,15 +27,15 @@ LeS(m, S, r, tol) == m * r[2] <= r[1] * S + tol * r[2]
 Why(e) ==
     LET p  == [kind |-> e.kind, a |-> Rq(e.a), b |-> Rq(e.b)]
         u1 == R(e.j1, e.UD)   u2 == R(e.j2, e.UD)
-    IN  IF e.j1 < e.j2 /\ ~(e.m1 <= e.m2) THEN "monotone"
+    IN  IF e.bad THEN "finite_in_support"        \* NaN / infinite / far outside every support: nothing else is evaluated
+        ELSE IF e.j1 < e.j2 /\ ~(e.m1 <= e.m2) THEN "monotone"
         ELSE IF e.j1 > e.j2 /\ ~(e.m1 >= e.m2) THEN "monotone"
         ELSE IF p.kind \in UniKinds THEN
              IF ~(Close(e.m1, e.S, RAdd(p.a, RMul(u1, RSub(p.b, p.a))), e.tol)
                   /\ Close(e.m2, e.S, RAdd(p.a, RMul(u2, RSub(p.b, p.a))), e.tol)) THEN "inverse_cdf_uniform"
              ELSE IF ~(GeS(e.m1, e.S, p.a, e.tol) /\ LeS(e.m1, e.S, p.b, e.tol)) THEN "onto_support"
              ELSE "ok"
-        ELSE IF ~(/\ GeS(e.m1, e.S, GaussLo(p, e.j1, e.UD), e.gtol) /\ LeS(e.m1, e.S, GaussHi(p, e.j1, e.UD), e.gtol)
-                  /\ GeS(e.m2, e.S, GaussLo(p, e.j2, e.UD), e.gtol) /\ LeS(e.m2, e.S, GaussHi(p, e.j2, e.UD), e.gtol))
+        ELSE IF ~(InBracket(e.m1, e.S, p, e.j1, e.UD, e.gtol) /\ InBracket(e.m2, e.S, p, e.j2, e.UD, e.gtol))
              THEN "inverse_cdf_gaussian"
         ELSE IF e.j2 = e.UD - e.j1 /\ ~Close(e.m1 + e.m2, e.S, RMul(Q(2), p.a), 2 * e.tol) THEN "gaussian_symmetric"
         ELSE "ok"
